@@ -233,10 +233,7 @@ def drivers(chk, P):
                 if not reads:
                     continue
                 nloops += 1
-                bound = expand_locals(f, cm[3])
-                whole = (cm[1] == "<" and ((isinstance(bound, list) and bound[:2] == ["op", "+"] and _lit(bound[3], ("1",)) and bool(sx_find(bound[2], lambda y: y[0] == "call" and str(y[1]).endswith("::size") and var_of(y[2]) == rootsv))) or
-                                           bool(sx_find(bound, lambda y: y[0] == "call" and str(y[1]).endswith("::size") and var_of(y[2]) == coefv)))) or \
-                        (cm[1] == "<=" and bool(sx_find(bound, lambda y: y[0] == "call" and str(y[1]).endswith("::size") and var_of(y[2]) == rootsv)) and not (isinstance(bound, list) and bound[:2] == ["op", "+"]))
+                whole = _covers_all_coefficients(f, cm, rootsv, coefv)
                 if not whole:
                     short.append("line %s: %s" % (t.get("line"), sx_str(cm)))
         if kind == "general":
@@ -282,42 +279,60 @@ def drivers(chk, P):
                     if good:
                         h = min(hs, key=lambda h_: len(loops[h_]))
                         iv, c = _loop_var(f, h)
-                        bound = expand_locals(f, c[3]) if isinstance(c, list) else None
-                        plus1 = isinstance(bound, list) and bound[:2] == ["op", "+"] and _lit(bound[3], ("1",)) and bool(sx_find(bound[2], lambda y: y[0] == "call" and str(y[1]).endswith("::size") and var_of(y[2]) == rootsv))
                         d0 = [d for _, _, d in f.events(lambda z: z["k"] == "decl" and z["var"] == iv) if d["line"] <= q["line"]]
-                        good = iv == ix[1] and c[1] == "<" and plus1 and bool(d0) and _lit(sorted(d0, key=lambda d: d["line"])[-1].get("init"), ("0",)) and _steps(f, loops[h], iv) == ["++"]
+                        good = iv == ix[1] and isinstance(c, list) and _covers_all_coefficients(f, c, rootsv, coefv) and bool(d0) and _lit(sorted(d0, key=lambda d: d["line"])[-1].get("init"), ("0",)) and _steps(f, loops[h], iv) == ["++"]
                 okc = okc and good
             # before the solver call
         chk.judge(okc, "COPY", tag + ":all-coefficients-in-order", f.loc, "solver inputs %s" % ins)
-        # output copy
-        ws = [(b_, w) for b_, _, e in f.events(lambda q: q["k"] in ("call", "assign")) for w in [ev_write(e)] if w and w[1] == "=" and isinstance(w[0], list) and w[0][0] in ("opc", "idx") and
-              var_of(w[0][2] if w[0][0] == "opc" else w[0][1]) == rootsv]
+        # output copy (in the driver, or in a helper the driver hands the three arrays to)
+        F, RV, OR, OI, site_ev = f, rootsv, outr, outi, None
+        ws = _root_writes(F, RV)
+        if not ws:
+            for b_, i_, e_ in f.calls():
+                a_ = [var_of(_strip(z)) for z in call_args(e_)]
+                gs = [g_ for g_ in P.by_id.get(e_.get("fid"), []) if g_.blocks]
+                if not gs:      # an implicitly instantiated helper template: analyse its pattern
+                    gs = [g_ for g_ in P.all_fns() if g_.name == str(e_.get("fn", "")) and g_.blocks and len(g_.d["params"]) == len(a_)][:1]
+                if rootsv in a_ and outr in a_ and outi in a_ and len(gs) == 1 and len(gs[0].d["params"]) == len(a_):
+                    pn = [p_[0] for p_ in gs[0].d["params"]]
+                    F, RV, OR, OI, site_ev = gs[0], pn[a_.index(rootsv)], pn[a_.index(outr)], pn[a_.index(outi)], (b_, i_, e_)
+                    ws = _root_writes(F, RV)
+                    break
         okw = bool(ws)
         idxs = []
         for b_, w in ws:
             ix = _strip(w[0][-1])
             src = _strip(w[2])
             pair = isinstance(src, list) and src[:1] == ["ctor"] and len(src[2]) == 2 and \
-                _elem_of(src[2][0], outr, ix) and _elem_of(src[2][1], outi, ix)
+                _elem_of(src[2][0], OR, ix) and _elem_of(src[2][1], OI, ix)
             okw = okw and pair
             idxs.append(ix)
-        if kind == "cubic":
-            okw = okw and sorted(str(i[1]) for i in idxs if i[:1] == ["lit"]) == ["0", "1", "2"]
+        lits = sorted(str(i[1]) for i in idxs if i[:1] == ["lit"])
+        if kind == "cubic" and len(lits) == len(idxs) and idxs:
+            okw = okw and lits == ["0", "1", "2"]
         else:
-            loops = f.loops()
+            loops = F.loops()
             okw = okw and len(ws) == 1 and idxs[0][:1] == ["var"]
             if okw:
                 hs = [h for h in loops if ws[0][0] in loops[h]]
                 okw = bool(hs)
                 if okw:
                     h = min(hs, key=lambda h_: len(loops[h_]))
-                    iv, c = _loop_var(f, h)
-                    bound = expand_locals(f, c[3]) if isinstance(c, list) else None
-                    okw = iv == idxs[0][1] and c[1] == "<" and bool(sx_find(bound, lambda y: y[0] == "call" and str(y[1]).endswith("::size") and var_of(y[2]) == rootsv)) and \
-                        not (isinstance(bound, list) and bound[:2] == ["op", "+"]) and _steps(f, loops[h], iv) == ["++"]
+                    iv, c = _loop_var(F, h)
+                    bound = expand_locals(F, c[3]) if isinstance(c, list) else None
+                    d0 = sorted([d for _, _, d in F.events(lambda z: z["k"] == "decl" and z["var"] == iv)], key=lambda d: d["line"])
+                    from0 = bool(d0) and any(_lit(d.get("init"), ("0",)) for d in d0)
+                    if kind == "cubic":
+                        okb = _lit(bound, ("3",)) and c[1] == "<"
+                    else:
+                        okb = c[1] == "<" and bool(sx_find(bound, lambda y: y[0] == "call" and str(y[1]).endswith("::size") and var_of(y[2]) == RV)) and not (isinstance(bound, list) and bound[:2] == ["op", "+"])
+                    okw = iv == idxs[0][1] and okb and from0 and _steps(F, loops[h], iv) == ["++"]
         chk.judge(okw, "COPY", tag + ":root-i-from-output-pair-i", f.loc, "roots[i] = complex(%s[i], %s[i]) for every i" % (outr, outi))
         # the copies happen after the solver call
-        after = all(f.path_exists((sb, si), lambda q, w=w: ev_write(q) is not None and ev_write(q)[0] == w[0], lambda q: False, lift=0) is not None for _, w in ws)
+        if site_ev is None:
+            after = all(f.path_exists((sb, si), lambda q, w=w: ev_write(q) is not None and ev_write(q)[0] == w[0], lambda q: False, lift=0) is not None for _, w in ws)
+        else:
+            after = f.path_exists((sb, si), lambda q: q is site_ev[2], lambda q: False, lift=0) is not None
         chk.judge(after, "COPY", tag + ":roots-copied-after-the-solver-ran", f.loc, "")
         # STATUS: -1 and <= 0 throw
         rv = [d["var"] for _, _, d in f.events(lambda q: q["k"] == "decl" and q.get("init") == se["x"])]
@@ -333,6 +348,24 @@ def drivers(chk, P):
             chk.judge(bool(pos) and p2 is None, "STATUS", tag + ":no-root-found-throws", f.loc, "", p2)
     chk.floor("COPY", 24)
     chk.floor("STATUS", 20)
+
+
+def _root_writes(F, RV):
+    return [(b_, w) for b_, _, e in F.events(lambda q: q["k"] in ("call", "assign")) for w in [ev_write(e)] if w and w[1] == "=" and isinstance(w[0], list) and w[0][0] in ("opc", "idx") and
+            var_of(w[0][2] if w[0][0] == "opc" else w[0][1]) == RV]
+
+
+def _covers_all_coefficients(f, cm, rootsv, coefv):
+    """the comparison `i < bound` / `i <= bound` of a loop lets i run over all n+1 coefficients (n = roots.size())"""
+    bound = expand_locals(f, cm[3])
+    is_n = lambda x: bool(sx_find(x, lambda y: y[0] == "call" and str(y[1]).endswith("::size") and var_of(y[2]) == rootsv))
+    plus1 = isinstance(bound, list) and bound[:2] == ["op", "+"] and _lit(bound[3], ("1",)) and is_n(bound[2])
+    whole_arr = bool(sx_find(bound, lambda y: y[0] == "call" and str(y[1]).endswith("::size") and var_of(y[2]) == coefv))
+    if cm[1] == "<":
+        return plus1 or whole_arr
+    if cm[1] == "<=":
+        return is_n(bound) and not (isinstance(bound, list) and bound[:2] == ["op", "+"])
+    return False
 
 
 def _minus1(x):
